@@ -344,8 +344,10 @@ class Check:
         ev = dict(property_id=self.pid, tier=self.tier, seed=self.seed, level=self.level, coverage=cov,
                   assumptions=self.assumptions, wall_s=round(time.time() - self.t0, 2),
                   violations=self.violations)
-        os.makedirs(os.path.join(VERIF, "evidence"), exist_ok=True)
-        with open(os.path.join(VERIF, "evidence", self.pid + ".json"), "w") as f:
+        # evidence describes /repo only: runs against another checkout (mutant evaluation) write theirs to scratch
+        evdir = os.path.join(VERIF, "evidence") if os.path.abspath(REPO) == "/repo" else "/var/tmp/verif-scratch/evidence-other"
+        os.makedirs(evdir, exist_ok=True)
+        with open(os.path.join(evdir, self.pid + ".json"), "w") as f:
             json.dump(ev, f, indent=1, default=str)
         self.cleanup()
         log("%s %s done in %.1fs: violations=%d states=%d traces=%d" %
